@@ -4,7 +4,7 @@
 From Coq Require Import List NArith ZArith Arith Lia Bool.
 From Coq Require Import Init.Byte.
 From OKE Require Import Bytes Suite Generated Hkdf Voprf Messages Envelope TripleDH Opaque Api.
-From OKE Require Import Laws Codecs Honest Substituted Accept Bad KeySeparation WrongCredential Toy.
+From OKE Require Import Laws Codecs Honest Substituted Accept Bad KeySeparation WrongCredential AcceptedLogin World WorldCrash CrashInv FreshRanges Toy.
 Import ListNotations.
 
 Definition tape0 : bytes := map (fun i => n2b (N.of_nat (i * 37 + 11))) (seq 0 300).
@@ -121,4 +121,93 @@ Proof.
   refine (mismatched_login_never_accepted TOY toy_hash_laws toy_group_laws Z.eq_dec toy_action_free
             _ _ _ _ _ _ _ _ _ _ _ _ _ _ _ _ _ _ _ _ _ _ _ _ _ _ HP HP H0 H1 H2 H3 _ H4 H5 Hacc).
   right. vm_compute. discriminate.
+Qed.
+
+(* C13 over histories on the toy suite: an honest login with a crash and restore of every party between all steps
+   reaches the same world as the uninterrupted one, and that world holds one completed session on each side with
+   equal keys (evaluated; then the same equality from the theorem) *)
+Definition fin0 : CredentialFinalization :=
+  match client_login_finish TOY (fst (fst r4)) pw0 (snd (fst (fst r5))) (Some [x78]) ids0 None with
+  | Ok (f, _, _, _, _) => f | Err _ => {| cf_mac := [] |} end.
+Definition hist0 : list (cop (E := Z) (Pk := Z)) :=
+  [ CReloadSetup; CStep (OClientStart pw0); CReloadClient 0; CReloadSetup;
+    CStep (OServerStart (Some (server_registration_finish upload0)) cred0 (Some [x78]) ids0 (snd (fst r4)));
+    CReloadServer 0; CReloadClient 0; CReloadServer 7;
+    CStep (OClientFinish 0 (snd (fst (fst r5))) (Some [x78]) ids0); CReloadServer 0; CReloadSetup;
+    CStep (OServerFinish 0 fin0); CReloadClient 0 ].
+Definition w0 := @init Z Z Z Z setup0 (snd r3).
+Definition keys_of (w : World (E := Z) (Sc := Z) (Pk := Z) (Sk := Z)) : list bytes * list bytes :=
+  (map cd_key (w_cdone w), map sd_key (w_sdone w)).
+Example toy_C13_history_with_crashes :
+  match crun TOY w0 hist0 with
+  | Ok w => keys_of w = keys_of (run TOY w0 (erase hist0)) /\
+            match keys_of w with ([k1], [k2]) => bytes_eqb k1 k2 = true | _ => False end
+  | Err _ => False
+  end.
+Proof. vm_compute. split; reflexivity. Qed.
+
+Example toy_C13_theorem_instance : crun TOY w0 hist0 = Ok (run TOY w0 (erase hist0)).
+Proof.
+  destruct toy_premises_of_C01 as (HP & H0 & _).
+  apply (crashes_change_nothing TOY toy_hash_laws toy_group_laws tape0 setup0 (snd r0) (snd r3) hist0 H0).
+  intros pw Hin. cbn in Hin.
+  repeat match goal with H : _ \/ _ |- _ => destruct H as [H|H]; try discriminate H end; try contradiction.
+  injection Hin as <-. exact HP.
+Qed.
+
+(* C08 / C17 over histories on the toy suite: three login attempts for one request - no record, the real record, no
+   record again - on one tape: the world has three server sessions, and the theorem (with the sampler law proved for the
+   toy suite below) places the random fields of the first and of the third attempt in disjoint ranges of that tape *)
+Lemma toy_sampler_prefix : sampler_prefix TOY.
+Proof. intros t r t' H. cbn in H. destruct t as [|x t]; [discriminate|]. injection H as _ <-. now exists [x]. Qed.
+
+Definition hist1 : list (op (E := Z) (Pk := Z)) :=
+  [ OClientStart pw0;
+    OServerStart None cred0 (Some [x78]) ids0 (snd (fst r4));
+    OServerStart (Some (server_registration_finish upload0)) cred0 (Some [x78]) ids0 (snd (fst r4));
+    OServerStart None cred0 (Some [x78]) ids0 (snd (fst r4)) ].
+Definition w1 := run TOY w0 hist1.
+Example toy_three_attempts : length (w_srv w1) = 3 /\
+  match w_srv w1 with
+  | [a; b; c] => negb (bytes_eqb (cr_masking_nonce (sv_resp a)) (cr_masking_nonce (sv_resp c))) &&
+                 negb (bytes_eqb (k2_nonce (cr_ke2 (sv_resp a))) (k2_nonce (cr_ke2 (sv_resp c)))) &&
+                 negb (bytes_eqb (mr_nonce (cr_masked (sv_resp a)) ++ mr_hash (cr_masked (sv_resp a)) ++ mr_pk (cr_masked (sv_resp a)))
+                                 (mr_nonce (cr_masked (sv_resp c)) ++ mr_hash (cr_masked (sv_resp c)) ++ mr_pk (cr_masked (sv_resp c)))) = true
+  | _ => False
+  end.
+Proof. vm_compute. split; reflexivity. Qed.
+
+Example toy_attempts_theorem_instance :
+  exists sa sc, nth_error (w_srv w1) 0 = Some sa /\ nth_error (w_srv w1) 2 = Some sc /\
+  exists tj fj ej mid fk ek restk,
+    tj = fj ++ cr_masking_nonce (sv_resp sa) ++ ej ++ k2_nonce (cr_ke2 (sv_resp sa)) ++ mid ++
+         fk ++ cr_masking_nonce (sv_resp sc) ++ ek ++ k2_nonce (cr_ke2 (sv_resp sc)) ++ restk /\
+    suffix tj (snd r3).
+Proof.
+  destruct (w_srv w1) as [|sa [|sb [|sc [|? ?]]]] eqn:Hw; try (exfalso; apply (f_equal (@length _)) in Hw; vm_compute in Hw; discriminate).
+  exists sa, sc. split; [reflexivity|]. split; [reflexivity|].
+  destruct (attempts_draw_from_disjoint_ranges TOY toy_sampler_prefix setup0 (snd r3) hist1 0 2 sa sc ltac:(lia))
+    as (tj & fj & nj & ej & mj & mid & fk & nk & ek & mk & restk & Ht & -> & -> & -> & -> & _ & _ & _ & _ & _ & _ & _ & _ & _ & _ & Hs).
+  - change (run TOY (init setup0 (snd r3)) hist1) with w1. now rewrite Hw.
+  - change (run TOY (init setup0 (snd r3)) hist1) with w1. now rewrite Hw.
+  - exists tj, fj, ej, mid, fk, ek, restk. split; assumption.
+Qed.
+
+(* C15 on the toy suite: registered under the default stretching function (the identity), login with an instance that
+   reverses its input: the server step is the honest one (r5), the client's final step fails; and the theorem, with
+   every law discharged, says an acceptance would have exhibited a collision or an agreement of the two functions *)
+Definition rev_ksf : ksf_fn := fun y => Some (rev y).
+Example toy_C15_other_stretching_rejected :
+  client_login_finish TOY (fst (fst r4)) pw0 (snd (fst (fst r5))) (Some [x78]) ids0 (Some rev_ksf) = Err EInvalidLogin.
+Proof. vm_compute. reflexivity. Qed.
+
+Example toy_C15_theorem_instance :
+  forall out, client_login_finish TOY (fst (fst r4)) pw0 (snd (fst (fst r5))) (Some [x78]) ids0 (Some rev_ksf) = Ok out ->
+    (exists y z, apply_ksf TOY None y = Some z /\ apply_ksf TOY (Some rev_ksf) y = Some z) \/ BadS TOY \/ BadOprfDerive TOY.
+Proof.
+  intros out Hacc.
+  destruct toy_premises_of_C01 as (HP & H0 & H1 & H2 & H3 & H4 & H5 & _).
+  destruct (accepted_login_used_the_registrations_secrets TOY toy_hash_laws toy_group_laws Z.eq_dec toy_action_free
+              _ _ _ _ _ _ _ _ _ _ _ _ _ _ _ _ _ _ _ _ _ _ _ _ _ _ _ HP HP H0 H1 H2 H3 H4 H5 Hacc)
+    as [(_ & _ & y & z & Ha & Hb & _)|HB]; [left; eauto | right; exact HB].
 Qed.
